@@ -315,11 +315,12 @@ template<typename T, typename N>
 [[nodiscard]]
 SUPPORT_INLINE constexpr T sar(const T& value, const N& n) noexcept { return T(as_std_sint(value) >> n); }
 
+//! Returns `value` rotated right by `n` bits (`n` is taken modulo the bit size of `T`, so rotation by zero is valid).
 template<typename T, typename N>
 [[nodiscard]]
 SUPPORT_INLINE constexpr T ror(const T& value, const N& n) noexcept {
-  uint32_t opposite_n =  uint32_t(bit_size_of<T>) - uint32_t(n);
-  return T((as_std_uint(value) >> n) | (as_std_uint(value) << opposite_n));
+  constexpr uint32_t kMask = uint32_t(bit_size_of<T>) - 1u;
+  return T((as_std_uint(value) >> (uint32_t(n) & kMask)) | (as_std_uint(value) << ((0u - uint32_t(n)) & kMask)));
 }
 
 // Support - CLZ & CTZ
